@@ -194,7 +194,9 @@ impl<'a, TId: ArenaId, TValue> Iterator for MappingIter<'a, TId, TValue> {
 
     fn next(&mut self) -> Option<Self::Item> {
         loop {
-            if self.offset >= self.mapping.len {
+            // Ids are not necessarily contiguous, so every slot up to the highest id that
+            // was ever inserted has to be visited (not just the first `len` slots).
+            if self.offset > self.mapping.max {
                 return None;
             }
 
